@@ -550,7 +550,7 @@ func main() {
 		runText(e, g, pkts(2), "enum")
 	}
 	// random trees
-	n := e.N(7000, 150000)
+	n := e.N(7000, 60000)
 	for i := 0; i < n; i++ {
 		g := randTree(r, r.Range(1, 4))
 		tag := "rand"
@@ -565,7 +565,7 @@ func main() {
 		}
 	}
 	// AST-level evaluation
-	n = e.N(5000, 100000)
+	n = e.N(5000, 40000)
 	for i := 0; i < n; i++ {
 		c := randCondAST(r, 3)
 		enc, ok := gwcond.EncCond(c)
